@@ -1,7 +1,7 @@
 """C08 — read/write mode keeps independent, correct read and write positions."""
-import struct
+import os, struct
 from .. import scripts as S, formats, geometry as G, handlecheck as HC, abscheck, kernels as K
-from ..core import Violation
+from ..core import Violation, VERIF
 
 DIG = K.TY_DIGITS
 
@@ -57,6 +57,8 @@ def gen_history(rng, f, ch, ty, lowzero, nops, depth_seed, route):
             if "open=NULL" in out:
                 return "SKIP" if mode == "rw" else "open for %s failed: %s" % (mode, out)
             kv = abscheck.parse_kv(out)
+            if mode != "w" and int(kv.get("frames", -1)) == F + 1 and G.pad_frames(f, ch) and (F * ch) % 2 == 1:
+                return "KF:KF-AIFF-ODD-PAD"      # class: AIFF, 1-byte samples, odd byte total; signature: exactly one extra frame
             if mode != "w" and int(kv.get("frames", -1)) != F:
                 return "open (%s) reports %s frames, the file holds %d" % (mode, kv.get("frames"), F)
             return None
@@ -191,6 +193,8 @@ def gen_history(rng, f, ch, ty, lowzero, nops, depth_seed, route):
     def chk_all(out, want=want, F=F):
         kv = abscheck.parse_kv(out)
         got = abscheck.split_items(kv.get("data", ""), ty)
+        if kv.get("ret") == str((F + 1) * ch) and G.pad_frames(f, ch) and (F * ch) % 2 == 1 and got[:F * ch] == want:
+            return "KF:KF-AIFF-ODD-PAD"
         if kv.get("ret") != str(F * ch):
             return "a fresh open reads %s items, the final sequence has %d frames" % (kv.get("ret"), F)
         if got[:F * ch] != want:
@@ -210,6 +214,17 @@ def run(ctx):
     found = False
     ctx.run_regressions()
     found = bool(ctx.violations)
+    # known findings: replay each witness; the class is waived only while its witness still fails with the recorded line
+    kf_still = {}
+    for kf in ctx.known:
+        if kf.get("status") != "known" or not kf.get("witness"):
+            continue
+        text = open(os.path.join(VERIF, kf["witness"])).read()
+        wl, _rc, _err = ctx.script(text.split("--- script", 1)[1].lstrip("\n"))
+        obs = [l[len("observed-last "):].strip() for l in text.split("\n") if l.startswith("observed-last ")]
+        kf_still[kf["id"]] = bool(wl) and any(o == wl[-1].strip() for o in obs)
+        if kf_still[kf["id"]]:
+            ctx.known_finding(kf)
     rng = ctx.rng
     # ---- A: byte-exact correspondence with the Lean handle model on RAW/AU/WAV, rw histories, vio and descriptor routes ----
     def gen(rng_, fe, max_ops=24, modes=("w", "r", "rw")):
@@ -243,6 +258,7 @@ def run(ctx):
     out = ctx.batch([("%s-%d" % (j[0].name, i), j[4]) for i, j in enumerate(jobs)], clean=True)
     reported = set()
     skipped = 0
+    kf_hits = {}
     for i, (f, ch, ty, route, script, expect) in enumerate(jobs):
         lines = out.get("%s-%d" % (f.name, i), [])
         sl = script.strip().split("\n")
@@ -260,6 +276,13 @@ def run(ctx):
                 skipped += 1
                 prob = None
                 break
+            if r and r.startswith("KF:"):
+                kf_hits[r[3:]] = kf_hits.get(r[3:], 0) + 1
+                if kf_still.get(r[3:]):
+                    prob = None      # inside a listed class, with its signature, and the witness still fails
+                else:
+                    prob = (k, "%s (class of %s, whose witness no longer fails)" % (lines[k].strip()[:80], r[3:]))
+                break
             if r:
                 prob = (k, r)
                 break
@@ -274,6 +297,7 @@ def run(ctx):
             ctx.violation("c08-%s" % f.name, "# C08 violated on the implementation's own transcript (abstract-file semantics of the statement)\n# format %s, %d channel(s), type %s, route %s\n# at script line %d: %s\n# %s\nobserved-last %s\n--- script\n%s"
                           % (f.name, ch, ty, route, prob[0], sl[prob[0]][:100] if prob[0] < len(sl) else "", prob[1], (lines[prob[0]] if prob[0] < len(lines) else "").strip(), HC.script_prefix(script, prob[0])))
     ctx.notes["rdwr_refused_at_open"] = skipped
+    ctx.notes["known_finding_class_hits"] = kf_hits
     corr = [x for x in fa if x.kind == "corr"]
     for x in [x for x in fa if x.kind == "crash"][:2]:
         found = True
